@@ -39,21 +39,27 @@ deriving DecidableEq, Repr
 def isInst (h : Handler) (targets : List Nat) : Bool :=
   targets.any (fun t => t == h.cls || h.supers.contains t)
 
-/-- `__candidate_types()` as `search` sees it: the target classes (turned into type strings by
-`build_xtype`), then the registered types of their other subclasses; no target class = every type -/
+/-- how `MelodyModel.search` turns a class argument into type strings: every type the class is
+registered for; only a class registered for none falls back to `build_xtype` (`none` = `TypeError`) -/
+def resolveClass (hs : List Handler) (t : Nat) (built : Option Nat) : List Nat :=
+  let reg := (hs.filter (fun h => h.cls == t)).map (·.xt)
+  if reg.isEmpty then built.toList else reg
+
+/-- `__candidate_types()` as `search` sees it: the target classes (resolved as above), then the
+registered types of their other subclasses; no target class = every type -/
 def candidates (hs : List Handler) (b : BackRef) : List Nat :=
   if b.targets.isEmpty then []
-  else b.builts.filterMap id ++ (hs.filter (fun h => isInst h b.targets && !b.targets.contains h.cls)).map (·.xt)
+  else (List.zipWith (resolveClass hs) b.targets b.builts).flatten ++
+    (hs.filter (fun h => isInst h b.targets && !b.targets.contains h.cls)).map (·.xt)
 
 /-- what must hold of a back-reference row for the accessor to see exactly the instances of its
-target classes (the defect of 88f31c0 was a violation): `build_xtype` works on every target class;
-(A) a target class is registered under no other type than the one `build_xtype` gives (its other
-subclasses are picked up from the registry by `__candidate_types`); (B) whatever is registered under
-the type `build_xtype` gives is an instance of a target class -/
+target classes (the defect of 88f31c0 was a violation of the closure that `candidates_closed` derives
+from this): one `build_xtype` result per target class; a target class that is registered for no type
+at all must at least have a derivable type (`search` raises otherwise), and (B) whatever is registered
+under that derived type is an instance of a target class -/
 def backrefOk (hs : List Handler) (b : BackRef) : Bool :=
   b.builts.length == b.targets.length &&
-  b.builts.all (·.isSome) &&
-  hs.all (fun h => !b.targets.contains h.cls || b.builts.contains (some h.xt)) &&
+  (List.zipWith (fun t bu => hs.any (fun h => h.cls == t) || bu.isSome) b.targets b.builts).all id &&
   b.builts.all (fun x => hs.all (fun h => some h.xt != x || isInst h b.targets))
 
 /-- a type name is a full one (`search` would read anything else as a short name) -/
